@@ -77,7 +77,15 @@ class FnPrinter:
         if self.tr.hooks and hasattr(self.tr.hooks, 'loop_ghost'):
             for g in self.tr.hooks.loop_ghost(self.cname, self.current_loop): out.append(self.ind() + g + ' /* ghost */')
         if n.get('kind') == 'CompoundStmt':
-            for c in n.get('inner', []): self.stmt(c, out)
+            stopped = False
+            for c in n.get('inner', []):
+                if stopped:
+                    self.loop_no += self.skip_counts(c); continue
+                self.stmt(c, out)
+                if getattr(self, 'stop_block', False):
+                    # branch-cut ... stop: the paths that pass this point are verified in another slice
+                    self.stop_block = False; stopped = True
+                    out.append(self.ind() + '__CPROVER_assume(0); /* the rest of this block is verified in another slice */')
         else:
             self.stmt(n, out)
         self.indent -= 1
@@ -159,7 +167,10 @@ class FnPrinter:
     def ex_CXXBindTemporaryExpr(self, n): return self.ex(n['inner'][0])
     def ex_CXXDefaultArgExpr(self, n):
         self.fail(n, 'default argument without callee context')
-    def ex_CXXThisExpr(self, n): return 'self'
+    def ex_CXXThisExpr(self, n):
+        env = self.node.get('_lambda_env')
+        if env and 'this' in env[1]: return '__c->__this'
+        return 'self'
     def ex_ImplicitValueInitExpr(self, n):
         return self.zero_value(self.ty(n))
     def ex_CXXScalarValueInitExpr(self, n):
@@ -186,6 +197,17 @@ class FnPrinter:
             if r.get('name') == 'npos': return '((unsigned long)-1)'
             if r.get('name') == 'nullopt': return '0'
             self.fail(n, 'reference to variable %s that is not loaded' % r.get('name'))
+        env = self.node.get('_lambda_env')
+        if env and rid in env[1]:
+            fname, byref = env[1][rid]
+            return '(*__c->%s)' % fname if byref else '__c->%s' % fname
+        if rk == 'VarDecl' and self.node.get('_lambda_free') and rid not in self.local_names and rid in self.tr.decl and not self._is_global(self.tr.decl[rid]):
+            # constant of the enclosing function used inside a lambda without being captured: its value
+            dd = self.tr.decl[rid]
+            init = [c for c in dd.get('inner', []) if c and c.get('kind') not in ('FullComment',)]
+            if init and self.tr.tparse(dd['type']).const:
+                return '(%s)' % self.ex(init[-1])
+            self.fail(n, 'use of enclosing local %s inside a lambda without capture' % r.get('name'))
         if rk in ('VarDecl', 'ParmVarDecl', 'BindingDecl', 'DecompositionDecl'):
             d = self.tr.decl.get(rid)
             tnode = (d or r)['type']
@@ -272,11 +294,13 @@ class FnPrinter:
     def base_path(self, q, owner_q):
         if owner_q is None or q == owner_q or q not in self.tr.records: return ''
         node = self.tr.records[q]
-        for b in node.get('bases', []):
-            bq = self.tr.tparse(b['type']).name
-            if bq == owner_q: return '__base.'
+        for i, b in enumerate(node.get('bases', [])):
+            bt = self.tr.tparse(b['type']); self.tr.category(bt)
+            bq = bt.name
+            fname = '__base' if i == 0 else '__base%d' % i
+            if bq == owner_q: return fname + '.'
             sub = self.base_path(bq, owner_q)
-            if sub or bq == owner_q: return '__base.' + sub
+            if sub or bq == owner_q: return fname + '.' + sub
         return ''
 
     @staticmethod
@@ -382,6 +406,14 @@ class FnPrinter:
         items = [c for c in n.get('inner', []) if c]
         if cat == 'record':
             fields = self.tr.record_fields(t.name)
+            if len(items) == 1:
+                # T{ x } with x of type T is a copy, not aggregate initialisation of the first field
+                try:
+                    it = self.ty(items[0]).strip_ref()
+                    if self.tr.category(it) == 'record' and self.tr.ctype_t(it) == self.tr.ctype_t(t):
+                        return self.init_value(items[0])
+                except Exception:
+                    pass
             vals = []
             for i, c in enumerate(items):
                 vals.append(self.init_value(c))
@@ -458,10 +490,15 @@ class FnPrinter:
         callee = n['inner'][0]; args = n['inner'][1:]
         c = self.skip(callee)
         while c.get('kind') in ('ImplicitCastExpr', 'ParenExpr'): c = c['inner'][0]
-        if c.get('kind') == 'DeclRefExpr':
+        if c.get('kind') == 'DeclRefExpr' and c['referencedDecl'].get('kind') in ('FunctionDecl', 'CXXMethodDecl'):
             r = c['referencedDecl']
             return self.tr.call_function(self, n, r, None, args)
-        self.fail(n, 'indirect call')
+        # call through a function pointer (member or variable)
+        ct = self.ty(callee)
+        ft = ct.to if ct.kind == 'ptr' else ct
+        if ft.kind != 'func': self.fail(n, 'indirect call through %r' % ct)
+        a = self.call_args(None, args, param_types=ft.params)
+        return '(%s)(%s)' % (self.ex(callee), ', '.join(a))
 
     def ex_CXXMemberCallExpr(self, n):
         callee = n['inner'][0]; args = n['inner'][1:]
@@ -554,7 +591,15 @@ class FnPrinter:
         out.append(self.ind() + '{')
         self.indent += 1
         if n.get('kind') == 'CompoundStmt':
-            for c in n.get('inner', []): self.stmt(c, out)
+            stopped = False
+            for c in n.get('inner', []):
+                if stopped:
+                    self.loop_no += self.skip_counts(c); continue
+                self.stmt(c, out)
+                if getattr(self, 'stop_block', False):
+                    # branch-cut ... stop: the paths that pass this point are verified in another slice
+                    self.stop_block = False; stopped = True
+                    out.append(self.ind() + '__CPROVER_assume(0); /* the rest of this block is verified in another slice */')
         else:
             self.stmt(n, out)
         self.indent -= 1
@@ -676,11 +721,24 @@ class FnPrinter:
         if self._stmt_may_throw:
             tmp = self.new_temp(lambda nm: '_Bool %s' % nm)
             out.append(self.ind() + '%s = %s;' % (tmp, ce)); self.after_stmt(out); ce = tmp
+        cut = None
+        for bc in getattr(self.tr, 'branch_cuts', {}).get(self.cname, []):
+            if bc['text'] in ce:
+                bc['hits'] += 1; cut = bc['side']
         out.append(self.ind() + 'if (%s)' % ce)
-        self.block(th, out)
-        if el is not None:
+        if cut == 'then':
+            out.append(self.ind() + '  { __CPROVER_assume(0); /* branch verified in another slice */ }')
+            self.loop_no += self.skip_counts(th)
+        else:
+            self.block(th, out)
+        if cut == 'else':
+            out.append(self.ind() + 'else')
+            out.append(self.ind() + '  { __CPROVER_assume(0); /* branch verified in another slice */ }')
+            if el is not None: self.loop_no += self.skip_counts(el)
+        elif el is not None:
             out.append(self.ind() + 'else')
             self.block(el, out)
+        if cut == 'stop': self.stop_block = True
         if opened:
             self.indent -= 1; out.append(self.ind() + '}')
 
@@ -754,6 +812,7 @@ class FnPrinter:
         idx, nslices = sl
         out.append(self.ind() + '{'); self.indent += 1
         group = -1; keep = True
+        count_loops = self.skip_counts
         def first_label(s):
             if s.get('kind') == 'DefaultStmt': return 'default'
             xi = [k for k in s.get('inner', []) if k]
@@ -778,10 +837,21 @@ class FnPrinter:
                             out.append(self.ind() + 'default:'); nxt = xi[0] if xi else None
                         x = nxt
                     out.append(self.ind() + '  __CPROVER_assume(0); /* arm verified in another slice */')
+                    self.loop_no += count_loops(s)
             elif keep:
                 self.stmt(s, out)
+            else:
+                self.loop_no += count_loops(s)
         self.tr.switch_groups[(self.cname, self.switch_no)] = group + 1
         self.indent -= 1; out.append(self.ind() + '}')
+
+    def skip_counts(self, x):
+        # loops / break / continue / return statements of a cut arm or branch still take their number, so that `loop K` and
+        # `assert break K` name the same source statement in every slice; returns the number of loops (and advances nothing else)
+        if not isinstance(x, dict) or x.get('kind') == 'LambdaExpr': return 0
+        kd = {'BreakStmt': 'break', 'ContinueStmt': 'continue', 'ReturnStmt': 'return'}.get(x.get('kind'))
+        if kd: self.stmt_counts[kd] = self.stmt_counts.get(kd, 0) + 1
+        return (1 if x.get('kind') in ('WhileStmt', 'ForStmt', 'DoStmt', 'CXXForRangeStmt') else 0) + sum(self.skip_counts(k) for k in x.get('inner', []) if k)
 
     def st_CaseStmt(self, n, out):
         inner = [c for c in n.get('inner', []) if c]
@@ -829,6 +899,8 @@ class FnPrinter:
         if self.ret_c == 'void' or True:
             # canary at the fall-through end (only meaningful for void functions)
             if self.ret_c == 'void': self.canary(out)
+        if node.get('_lambda_env'):
+            out.insert(0, '  struct %s *__c = (struct %s *)__env;' % (node['_lambda_env'][0], node['_lambda_env'][0]))
         head = [sig]
         if tr.hooks:
             head += ['  ' + l for l in tr.hooks.fn_contract(self.cname)]
